@@ -138,7 +138,7 @@ def bfs (U : UCfg) (A : Ana) : Nat → List (Blk × Nat × Blk) → Compiled →
       | none =>
         match checkBB U A b inputRow with
         | .error es => some (.error es)
-        | .ok outs => bfs U A fuel (q ++ revEnum b (U.succ b)) ((b, inputRow, outs) :: comp)
+        | .ok outs => bfs U A fuel (q ++ revEnum b (U.succ b ++ U.dsucc b)) ((b, inputRow, outs) :: comp)
 
 /-- `check_cfg` given the analysis results -/
 def checkCfg (U : UCfg) (A : Ana) (fuel : Nat) : Option (Except (List Err) Compiled) :=
